@@ -5,6 +5,8 @@ import re
 import shutil
 from fractions import Fraction
 
+import sys
+
 import numpy as np
 
 from .. import common, gen_all, curves, fits, m1
@@ -395,4 +397,4 @@ def check(run):
 
 
 def replay(rec):
-    return True
+    return common.replay_by_rerun(sys.modules[__name__], rec)
